@@ -483,7 +483,9 @@ theorem compile_self_tail_call (isFn : Nat → Bool) (c : Ctx) (h : String) (arg
           | some fo => if fo.varargs then decide (fo.nargs ≤ args.length) else args.length == fo.nargs
           | none => true) then do
         let code ← compileCallArgs isFn { c with tail := false } ((c.known.lookup h).bind (fun t => gs.fns[t]?)) 0 args
-        pure (code ++ [.prepareCall h args.length] ++ List.replicate (c.scopes + 1) .removeScope ++ [.goto 0], c.tail)
+        -- after fix C09-02: the guard in front, the ordinary call behind the jump
+        pure ([.tailGuard h (code.length + c.scopes + 4)] ++ code ++ [.prepareCall h args.length] ++
+              List.replicate (c.scopes + 1) .removeScope ++ [.goto 0, .callExpr (.sym h) args], c.tail)
       else pure ([.callExpr (.sym h) args], c.tail)) := by
   simp only [compile, hn]; rfl
 
@@ -658,6 +660,75 @@ theorem prepareArgs_at_strict_position (fuel : Nat) (f : Option FnObj) (i : Nat)
             prepPlan (fuel + 1) f (i + pre.length + 1) post) s := by
   rw [prepareArgs_eq_plan, prepPlan_append, List.length_cons]
   simp only [runM_bind, prepPlan_cons, prepOne, h, Bool.false_eq_true, if_false]
+
+/-! ## nothing is read when the argument is delayed -/
+
+/-- delaying an argument never consults the scope table: it commutes with any change of the
+scope contents (no variable is read, whatever the expression — a bare symbol included) -/
+theorem allocThunk_reads_no_variable (e : Expr) (s : St) (sc : List Scope) :
+    allocThunk e { s with scopes := sc } = { allocThunk e s with scopes := sc } := rfl
+
+/-- after a call with only lazy positions, every new thunk holds its expression and no value -/
+theorem allocThunk_fold_thunks (args : List Expr) : ∀ (s : St) (j : Nat) (hj : j < args.length),
+    ∃ lz, (args.foldl (fun s e => allocThunk e s) s).lazies[s.lazies.length + j]? = some lz ∧
+      lz.e = args[j] ∧ lz.value = none ∧ lz.stack = s.linear ∧ lz.curfunc = s.curfunc := by
+  induction args with
+  | nil => intro s j hj; cases hj
+  | cons a as ih =>
+    intro s j hj
+    rw [List.foldl_cons]
+    have hext : LExt (allocThunk a s).lazies (as.foldl (fun s e => allocThunk e s) (allocThunk a s)).lazies := by
+      have : ∀ (l : List Expr) (t : St), LExt t.lazies (l.foldl (fun s e => allocThunk e s) t).lazies := by
+        intro l
+        induction l with
+        | nil => intro t; exact LExt.refl _
+        | cons b bs ihb => intro t; exact LExt.trans (LExt.append _ _) (ihb (allocThunk b t))
+      exact this as _
+    cases j with
+    | zero =>
+      obtain ⟨lz', h', le⟩ := hext s.lazies.length _ (allocThunk_new a s).1
+      refine ⟨lz', by simpa using h', le.1, ?_, le.2.1, le.2.2.1⟩
+      -- a value could only have been added by a force; the fold forces nothing: use the frame
+      have hfr := ih (allocThunk a s)
+      -- value: the fold only appends, so the entry is literally the allocated one
+      have : ∀ (l : List Expr) (t : St) (i : Nat) (x : LazyObj), t.lazies[i]? = some x →
+          (l.foldl (fun s e => allocThunk e s) t).lazies[i]? = some x := by
+        intro l
+        induction l with
+        | nil => intro t i x h; exact h
+        | cons b bs ihb =>
+          intro t i x h
+          rw [List.foldl_cons]
+          apply ihb
+          simp only [allocThunk]
+          rw [List.getElem?_append_left (getElem?_lt h)]; exact h
+      have h2 := this as _ _ _ (allocThunk_new a s).1
+      rw [h2] at h'; cases h'; rfl
+    | succ j =>
+      have hj' : j < as.length := by simpa using hj
+      obtain ⟨lz, h1, h2, h3, h4, h5⟩ := ih (allocThunk a s) j hj'
+      refine ⟨lz, ?_, by simpa using h2, h3, h4, h5⟩
+      have : (allocThunk a s).lazies.length + j = s.lazies.length + (j + 1) := by simp [allocThunk]; omega
+      rw [← this]; exact h1
+
+theorem compile_sym (isFn : Nat → Bool) (c : Ctx) (x : String) : compile isFn c (.sym x) = pure ([.envToStack x], c.tail) := by
+  simp only [compile]
+
+theorem runGen_compile_sym (s : St) (x : String) :
+    runM (runGen (compile (isFnScope s) {} (.sym x))) s = (.ok ([.envToStack x], false), s) := by
+  rw [compile_sym]
+  simp only [runGen, runM_bind, runM_get]
+  rfl
+
+theorem exec_envToStack (fuel : Nat) (x : String) (s : St) :
+    runM (exec (fuel + 1) (.envToStack x)) s =
+      match lexLookup s x with
+      | some (_, v) => (.ok (), { s with data := some v :: s.data, pc := s.pc + 1 })
+      | none => (.error .err, s) := by
+  simp only [exec, runM_bind, runM_get]
+  cases lexLookup s x with
+  | none => rfl
+  | some r => rfl
 
 /-! ## lookups inside a forced expression -/
 
